@@ -90,6 +90,8 @@ type frame struct {
 	entryAllocRef T
 	ncallAll    map[string]int
 	assertsSeen map[string]bool
+	hookFrom    *frame    // automatically inlined helper: call-site hooks of this frame are the caller's
+	hookPos     token.Pos // position of the call to the helper in the caller (names resolve there)
 }
 
 type deferInfo struct {
@@ -167,6 +169,8 @@ type Enc struct {
 	opaqueReads bool // relational mode: byte readers in contracts are uninterpreted
 	noObl      int
 	autoDepth  int // nesting of automatically inlined contract-less helpers
+	nextHookFrom *frame    // set just before runBody of an automatically inlined helper
+	nextHookPos  token.Pos
 	loopDry    int
 	usesLex    bool
 	topName    string
@@ -822,6 +826,28 @@ func (e *Enc) runBody(fn *ssa.Function, args []Val, bind []Val, top bool, con *C
 	defer func() { e.depth-- }()
 	f := &frame{fn: fn, vals: map[ssa.Value]Val{}, ins: map[*ssa.BasicBlock][]edgeIn{}, bind: bind, params: args, top: top, con: con,
 		loops: findLoops(fn), ncall: map[string]int{}, nsafety: map[string]int{}, name: e.L.funcName(fn), ncallAll: map[string]int{}, assertsSeen: map[string]bool{}}
+	if p := e.nextHookFrom; p != nil {
+		// a contract-less helper executed in place: the caller's call-site
+		// hooks (at_call / after_call) keep applying to the calls that an
+		// "extract function" edit moved into it; they are named and numbered
+		// as in the caller and evaluated with the caller's variables
+		e.nextHookFrom = nil
+		root := p
+		if p.hookFrom != nil {
+			root = p.hookFrom
+		}
+		if root.con != nil && len(root.con.CallAsserts) > 0 {
+			f.hookFrom = root
+			f.hookPos = e.nextHookPos
+			if p.hookFrom != nil {
+				f.hookPos = p.hookPos
+			}
+			f.con = &Contract{CallAsserts: root.con.CallAsserts}
+			f.ncallAll = root.ncallAll
+			f.assertsSeen = root.assertsSeen
+			f.name = root.name
+		}
+	}
 	e.frames = append(e.frames, f)
 	defer func() { e.frames = e.frames[:len(e.frames)-1] }()
 	if top {
@@ -845,7 +871,7 @@ func (e *Enc) runBody(fn *ssa.Function, args []Val, bind []Val, top bool, con *C
 	order := e.rpo(fn)
 	f.ins[fn.Blocks[0]] = []edgeIn{{cond: e.reach, st: e.cur}}
 	e.runBlocks(f, order, nil)
-	if con != nil && e.dry == 0 {
+	if con != nil && e.dry == 0 && f.hookFrom == nil {
 		for _, ca := range con.CallAsserts {
 			if !f.assertsSeen[fmt.Sprintf("%s#%d", ca.Callee, ca.N)] {
 				e.errs = append(e.errs, fmt.Sprintf("%s: contract-unbound: no call %s#%d for at_call", f.name, ca.Callee, ca.N))
